@@ -29,6 +29,7 @@ fn special_family(rng: &mut Rng, cfg: &GenCfg) -> Option<Vec<Doc>> {
     // the huge-schema and huge-table families are expensive: once in 600 sessions each
     let which = if (which == 4 || which == 5) && !rng.pct(7) { 39 } else { which };
     let which = if which == 6 && !rng.pct(10) { 39 } else { which };
+    let which = if which == 11 && !rng.pct(12) { 39 } else { which };
     family(rng, cfg, which)
 }
 
@@ -283,6 +284,127 @@ pub fn family(rng: &mut Rng, cfg: &GenCfg, which: usize) -> Option<Vec<Doc>> {
             }
             Some(docs)
         }
+        9 | 10 => {
+            // wide sparse parent: 8..=14 distinct child names (optionally with a pair that asks for the same identifier),
+            // three to seven occurrences spread over one to three documents; an occurrence is the full list, a small
+            // "core" subset that keeps coming back, the core plus a new name, some other small subset, or empty in
+            // either spelling. Width thresholds ("at least 8 / 9 children"), sparse fast paths and anything that lets
+            // a re-seen child stay mandatory meet here.
+            let n = rng.range(8, 14);
+            let mut names: Vec<String> = (0..n).map(|i| format!("k{i}")).collect();
+            if rng.pct(50) {
+                let pair = *rng.pick(&[["Foo", "foo"], ["item", "Item"], ["a-b", "a_b"]]);
+                let i = rng.below(n - 1);
+                names[i] = pair[0].to_string();
+                names[i + 1 + rng.below(n - 1 - i)] = pair[1].to_string();
+            }
+            let mut core: Vec<String> = Vec::new();
+            if names.iter().any(|x| x == "Foo" || x == "item" || x == "a-b") && rng.pct(50) {
+                core = names.iter().filter(|x| !x.starts_with('k')).cloned().collect();
+            } else {
+                for _ in 0..rng.range(1, 3) {
+                    let c = rng.pick(&names).clone();
+                    if !core.contains(&c) {
+                        core.push(c);
+                    }
+                }
+            }
+            let mut fresh = 0;
+            let mut occ = |rng: &mut Rng, kind: usize| {
+                let mut p = Elem::new("p");
+                let list: Vec<String> = match kind {
+                    0 => names.clone(),
+                    1 => names.iter().filter(|x| core.contains(x)).cloned().collect(),
+                    2 => {
+                        fresh += 1;
+                        let mut l: Vec<String> = names.iter().filter(|x| core.contains(x)).cloned().collect();
+                        l.push(format!("n{fresh}"));
+                        l
+                    }
+                    3 => names.iter().filter(|x| !core.contains(x) && rng.pct(25)).cloned().collect(),
+                    4 => names.iter().filter(|x| !core.contains(x)).cloned().collect(),
+                    _ => Vec::new(),
+                };
+                if list.is_empty() {
+                    p.selfclose = rng.pct(60);
+                }
+                for nm in list {
+                    let mut c = Elem::new(&nm);
+                    c.selfclose = rng.pct(50);
+                    p.kids.push(Node::Elem(c));
+                    if rng.pct(4) {
+                        p.kids.push(Node::Elem(Elem::new(&nm)));
+                    }
+                }
+                p
+            };
+            let k = rng.range(3, 7);
+            let mut occs = vec![occ(rng, 0)];
+            for _ in 1..k {
+                let kind = *rng.pick(&[0usize, 1, 1, 1, 2, 2, 3, 3, 4, 5, 5]);
+                occs.push(occ(rng, kind));
+            }
+            if rng.pct(25) {
+                rng.shuffle(&mut occs);
+            }
+            let nd = rng.range(1, 3).min(occs.len());
+            let mut docs: Vec<Doc> = Vec::new();
+            let per = (occs.len() + nd - 1) / nd;
+            for chunk in occs.chunks(per) {
+                let mut r = Elem::new("r");
+                for o in chunk {
+                    r.kids.push(Node::Elem(o.clone()));
+                }
+                docs.push(Doc::plain(r));
+            }
+            Some(docs)
+        }
+        11 => {
+            // irregular table: 4100..=5200 rows of one name with the same two or three children, except for a handful
+            // of rows in which a child is repeated, and a handful in which it is missing (anything that switches to
+            // totals - "child count below parent count" - once an element has been seen a few thousand times)
+            let rows = *rng.pick(&[4100usize, 4200, 5200]);
+            let cols: Vec<&str> = ["v", "w", "x"].iter().copied().take(rng.range(1, 3)).collect();
+            let nd = rng.range(1, 3);
+            let mut docs = Vec::new();
+            let mut left = rows;
+            for d in 0..nd {
+                let here = if d + 1 == nd { left } else { left / 2 };
+                left -= here;
+                let mut root = Elem::new("r");
+                for _ in 0..here {
+                    let mut row = Elem::new("row");
+                    for c in &cols {
+                        let reps = if rng.pct(1) { *rng.pick(&[0usize, 0, 2, 2, 3]) } else { 1 };
+                        for _ in 0..reps {
+                            let mut e = Elem::new(c);
+                            e.selfclose = true;
+                            row.kids.push(Node::Elem(e));
+                        }
+                    }
+                    if row.kids.is_empty() {
+                        row.selfclose = rng.pct(50);
+                    }
+                    root.kids.push(Node::Elem(row));
+                }
+                docs.push(Doc::plain(root));
+            }
+            // irregular rows at the very end as well: after the threshold has certainly been passed
+            for tail in [&["v", "v"][..], &[][..], &["v"][..]] {
+                if rng.pct(60) {
+                    let mut row = Elem::new("row");
+                    for c in tail {
+                        let mut e = Elem::new(c);
+                        e.selfclose = true;
+                        row.kids.push(Node::Elem(e));
+                    }
+                    if let Some(Node::Elem(_)) = docs.last().unwrap().root.kids.last() {
+                        docs.last_mut().unwrap().root.kids.push(Node::Elem(row));
+                    }
+                }
+            }
+            Some(docs)
+        }
         _ => None,
     }
 }
@@ -382,7 +504,7 @@ fn gen_session_with(rng: &mut Rng, no_twins: bool, c06: bool, cut_short: bool) -
     let k = if c06 { rng.range(2, 5) } else { *rng.pick(&[1usize, 1, 2, 2, 3, 3, 4, 5]) };
     let mut docs = match special_family(rng, &cfg) {
         // the unreliable-delivery property is not about depth: keep its (many-replica) sessions shallow
-        Some(d) if !(c06 && (d.iter().any(|x| x.root.depth() > 140) || d.len() > 5 || (d.iter().map(|x| x.root.count()).sum::<usize>() > 1500 && d[0].root.count() < 30_000))) => d,
+        Some(d) if !(c06 && (d.iter().any(|x| x.root.depth() > 140) || d.len() > 5 || (d.iter().map(|x| x.root.count()).sum::<usize>() > 1500 && d[0].root.count() < 30_000 && !(d[0].root.name == "r" && d.iter().map(|x| x.root.kids.len()).sum::<usize>() > 4000 && d.len() <= 3)))) => d,
         _ => gen_history(rng, &cfg, k).1,
     };
     if cut_short && rng.pct(15) {
